@@ -1221,6 +1221,58 @@ def check_soc(cfg, seed=0, max_regs=None, max_words=None):
             if (R.name + "_page" in ex.json["csr_registers"]) != (depth * nsub > W):
                 alarm("memory %s (%d words of %d CSR words): page register presence" % (R.name, depth, nsub))
             if depth * nsub > W:
+                # ---- wide AND deeper than a page: every sub-word location is `base + 4*(i mod W)` with the page register
+                #      holding `i // W` (i = CSR-word index w*nsub + k); words around every page boundary and both ends ------
+                count("mem_windows_wide_paged")
+                preg = R.name + "_page"
+                wpp = W // nsub                                   # memory words per page
+                ws = {0, 1, depth - 1, depth - 2, rng.randrange(depth), rng.randrange(depth)}
+                for pg in range(1, (depth * nsub + W - 1) // W):
+                    ws |= {pg * wpp - 1, pg * wpp, pg * wpp + 1}
+                if preg not in ex.header.writers:
+                    alarm("memory %s needs paged access but csr.h has no writer for %s" % (R.name, preg))
+                    continue
+                for w in sorted(x for x in ws if 0 <= x < depth):
+                    pv = (w * nsub) // W
+                    pst = []
+                    ex.header.write(preg, pv, lambda a, x: pst.append((a, x)))
+                    for a, x in pst:
+                        do_access(a, 1, x)
+                    real_pv = tb.get(mmap._page.storage)
+                    before = [tb.mem_word(mem, c) for c in range(depth)]
+                    subs = []
+                    for k in range(nsub):
+                        v = rng.getrandbits(32) | 1
+                        a = base + 4 * ((w * nsub + k) % W)
+                        val, hits = do_access(a, 1, v)
+                        what = "store to memory %s word %d sub-word %d (page register %d) @0x%x" % (R.name, w, k, pv, a)
+                        if hits is None:
+                            alarm(what + ": the bus hangs")
+                        elif set(tb.name_hits(hits)) != {"mw:" + R.name}:
+                            alarm("%s: strobed %s" % (what, tb.name_hits(hits)), R_CSR8)
+                        subs.append(v & ((1 << bw) - 1))
+                        if model_regs and hits is not None:
+                            rec["lean"].append(("sramwide %d %d %d %d %d %d" % (paging, R.page, depth, nsub, real_pv, (a - csr_base) // 4), "%d %d" % (w, k)))
+                    want_w = 0
+                    for x in subs:
+                        want_w = (want_w << bw) | x
+                    want_w &= (1 << mwidth) - 1
+                    after = [tb.mem_word(mem, c) for c in range(depth)]
+                    changed = [c for c in range(depth) if after[c] != before[c]]
+                    if after[w] != want_w or any(c != w for c in changed):
+                        alarm("paged wide memory %s (%d x %d bit, %d CSR words per word, page of %d CSR words): word %d written through page %d "
+                              "must become 0x%x; it holds 0x%x, words changed: %s" % (R.name, depth, mwidth, nsub, W, w, pv, want_w, after[w], changed[:4]), R_CSR8)
+                    if model_regs:
+                        rec["lean"].append(("wideword %d %s" % (bw, " ".join(map(str, subs))), str(after[changed[0]] if len(changed) == 1 else after[w])))
+                    for k in range(nsub):
+                        a = base + 4 * ((w * nsub + k) % W)
+                        val, hits = do_access(a, 0)
+                        want = (after[w] >> (bw * (nsub - 1 - k))) & ((1 << bw) - 1)
+                        if hits is None or val != want:
+                            alarm("load from paged wide memory %s word %d sub-word %d (page register %d) @0x%x returns %r, that part of the word is 0x%x" % (
+                                R.name, w, k, pv, a, val, want), R_CSR8, *((R_AXIL_RD,) if False else ()))
+                        count("mem_accesses", 1)
+                    count("mem_accesses", nsub)
                 continue
             vals = {}
             for w in range(depth):
@@ -1734,6 +1786,32 @@ def ref_image_byte(img, q, big, a):
     return (sub >> (8 * lane)) & 0xff
 
 
+def unaligned_image_probe():
+    """Witness of C14-mem-image-unaligned-base on the real get_mem_data: a 10-byte file at base 5 and a 4-byte aligned region at
+    base 4, data_width=64.  -> (still_fails, what)"""
+    tmp = tempfile.mkdtemp(prefix="c14_")
+    try:
+        fn = os.path.join(tmp, "f.bin")
+        data = bytes(range(0x11, 0x1b))
+        with open(fn, "wb") as f:
+            f.write(data)
+        out = []
+        for base in (5, 4):
+            try:
+                img = get_mem_data({fn: "%08x" % base}, data_width=64, endianness="little")
+            except Exception as e:      # refusing an unaligned base repairs the finding as well
+                out.append((False, "base %d refused: %r" % (base, e)))
+                continue
+            got = [ref_image_byte(img, 2, False, base + i) for i in range(len(data)) if (base + i) < 8 * len(img)]
+            bad = got != list(data)
+            out.append((bad, "get_mem_data({f.bin: %08x}, data_width=64): file byte 0 (0x%02x) is read at byte address %s, expected %d" % (
+                base, data[0], next((a for a in range(8 * len(img)) if ref_image_byte(img, 2, False, a) == data[0]), None), base)))
+        fails = any(b for b, _ in out)
+        return fails, "; ".join(t for b, t in out if b == fails)
+    finally:
+        shutil.rmtree(tmp, ignore_errors=True)
+
+
 def mem_image_case(rng, tmpdir):
     """One random get_mem_data call.  -> (lean line, real answer, oracle alarm | None, second lean line, answer)"""
     n = rng.choice((1, 2, 3, 4, 5, 7, 8, 9, 15, 16, 17, 31, 32, 33, 64, 70)) if rng.random() < 0.5 else rng.randint(1, 70)
@@ -1778,7 +1856,10 @@ def mem_image_case(rng, tmpdir):
         if alarm is None and ref_image_byte(img, q, big, a) != want:
             alarm = "%d-byte file placed at byte offset %d of a %d-bit %s-endian memory: byte address %d of the image reads 0x%02x, file byte %s is 0x%02x" % (
                 n, kb, 32 * q, "big" if big else "little", a, ref_image_byte(img, q, big, a), a - kb if kb <= a < kb + n else "(none)", want)
-            tag = R_UNALIGNED if r_ else None
+            # the open finding is exactly "placed at the aligned-down base": any other misplacement stays a fresh violation
+            kf = kb // (4 * q) * (4 * q)
+            floor_ok = all(ref_image_byte(img, q, big, x) == (data[x - kf] if kf <= x < kf + n else 0) for x in range(total))
+            tag = R_UNALIGNED if (r_ and floor_ok) else None
             break
     if any(w_ >> (32 * q) for w_ in img):
         alarm, tag = "an image word exceeds %d bits" % (32 * q), None
